@@ -6,6 +6,7 @@ package codec
 // negative ones as int64; times by instant; floats bit for bit with one NaN).
 
 import (
+	"bytes"
 	"encoding/hex"
 	"fmt"
 	"math"
@@ -72,7 +73,17 @@ func canonV(v reflect.Value, inIface bool) interface{} {
 		return out
 	case reflect.Slice:
 		if v.Type().Elem().Kind() == reflect.Uint8 {
+			if v.Len() > 512 {
+				return "x(" + hashBytes(v.Bytes()) + ")" // large payloads by length and hash
+			}
 			return "x" + hex.EncodeToString(v.Bytes())
+		}
+		if v.Type().Elem().Kind() == reflect.Float64 && v.Len() > 64 {
+			h := uint64(1469598103934665603)
+			for i := 0; i < v.Len(); i++ {
+				h = (h ^ math.Float64bits(v.Index(i).Float())) * 1099511628211
+			}
+			return fmt.Sprintf("floats(%d #%x)", v.Len(), h)
 		}
 		out := []interface{}{}
 		for i := 0; i < v.Len(); i++ {
@@ -236,7 +247,7 @@ func caseMsg(ctx *hk.RunCtx, idx uint64) error {
 	nontrivial := true
 	kind := hk.Pick(r, []string{"Insert", "Insert", "Query", "Query", "Point", "RemoteQueryResult:row", "RemoteQueryResult:row",
 		"RemoteQueryResult:series", "RemoteQueryResult:series", "RemoteQueryResult:fields", "RemoteQueryResult:end",
-		"InsertReport", "Follow", "QueryMetaData", "SourceInfo", "RegisterQueryHandler"})
+		"InsertReport", "Follow", "QueryMetaData", "SourceInfo", "RegisterQueryHandler", "large"})
 	ctx.Res.Hit("msg:" + kind)
 	switch kind {
 	case "Insert":
@@ -291,6 +302,18 @@ func caseMsg(ctx *hk.RunCtx, idx uint64) error {
 				return "Deadline is another instant"
 			}
 			return ""
+		}
+	case "large":
+		// a message of several HTTP/2 frames (16 KB each)
+		size := hk.Pick(r, []int{r.Range(17000, 40000), r.Range(40000, 120000)})
+		switch r.Intn(3) {
+		case 0:
+			orig, out = &rpc.Point{Data: fill(uint64(idx), 0, size), Offset: genOffset(r)}, &rpc.Point{}
+		case 1:
+			orig, out = &rpc.RemoteQueryResult{Key: bytemap.New(genMap(r, 3)), Vals: core.Vals{encoding.Sequence(fill(uint64(idx), 1, size)), nil,
+				encoding.Sequence(fill(uint64(idx), 2, 17))}}, &rpc.RemoteQueryResult{}
+		default:
+			orig, out = &rpc.RemoteQueryResult{Row: &core.FlatRow{TS: int64(idx), Key: bytemap.New(genMap(r, 3)), Values: fillFloats(uint64(idx), 3, size/9)}}, &rpc.RemoteQueryResult{}
 		}
 	case "Point":
 		orig, out = &rpc.Point{Data: genBytes(r, 200), Offset: genOffset(r)}, &rpc.Point{}
@@ -362,14 +385,41 @@ func caseMsg(ctx *hk.RunCtx, idx uint64) error {
 	cs := map[string]interface{}{"mode": "msg", "kind": kind, "msg": co}
 	ctx.Res.Count(cs, nontrivial)
 	var err error
+	ownership := ""
+	var input []byte
 	if pn := hk.Recover(func() {
 		var b []byte
 		b, err = rpc.Codec.Marshal(orig)
-		if err == nil {
-			err = rpc.Codec.Unmarshal(b, out)
+		if err != nil {
+			return
 		}
+		atReturn := append([]byte(nil), b...)
+		// ownership of Marshal's result: the sender marshals the next messages of the
+		// stream while gRPC's transport still references this one (everything beyond the
+		// first 16 KB frame is written later by another goroutine)
+		for j, nLater := 0, r.Range(1, 3); j < nLater; j++ {
+			size := hk.Pick(r, []int{len(b) / 2, len(b), 2*len(b) + 16, r.Range(1, 64)})
+			if _, lerr := rpc.Codec.Marshal(&rpc.Point{Data: fill(uint64(idx)+1, j, size), Offset: genOffset(r)}); lerr != nil {
+				err = lerr
+				return
+			}
+		}
+		if !bytes.Equal(b, atReturn) {
+			first := 0
+			for first < len(b) && b[first] == atReturn[first] {
+				first++
+			}
+			ownership = fmt.Sprintf("the %d bytes returned by Marshal were modified by a later Marshal call (first changed byte at offset %d); gRPC keeps the slice by reference until its frames are written", len(b), first)
+			return
+		}
+		input = atReturn
+		err = rpc.Codec.Unmarshal(input, out)
 	}); pn != nil {
 		err = fmt.Errorf("panic: %v", pn)
+	}
+	if ownership != "" {
+		ctx.Res.Disagree(hk.Disagreement{Kind: "property", Case: cs, Detail: kind + ": " + ownership, PropertyFails: true, Index: idx})
+		return nil
 	}
 	detail := ""
 	if err != nil {
@@ -380,6 +430,16 @@ func caseMsg(ctx *hk.RunCtx, idx uint64) error {
 		return nil
 	} else if extra != nil {
 		detail = extra()
+	}
+	if detail == "" && err == nil {
+		// ownership of Unmarshal's input: the receiver's buffer may be reused once
+		// Unmarshal has returned; the decoded message must not alias it
+		for i := range input {
+			input[i] = 0xA5
+		}
+		if cd := canon(out); !reflect.DeepEqual(normJSON(co), normJSON(cd)) {
+			detail = "the decoded message changed when the input bytes were overwritten after Unmarshal returned (it aliases the receive buffer)"
+		}
 	}
 	if detail != "" {
 		ctx.Res.Disagree(hk.Disagreement{Kind: "property", Case: cs, Detail: kind + ": " + detail, PropertyFails: true, Index: idx})
